@@ -442,6 +442,19 @@ def run(ctx: Ctx, rep: Report, tier: str) -> None:  # noqa: C901
                 g2 = fn.cls.lookup_getter(n.attr)
                 if g2 is not None:
                     out.extend(portname_calls(g2, _seen))
+                else:
+                    # a PortName kept in an attribute: the construction is where the attribute is assigned (whether it
+                    # is refreshed when the settings change is R09.12)
+                    for g3 in fn.cls.all_funcs():
+                        for a in own_nodes(g3.node):
+                            if isinstance(a, (ast.Assign, ast.AnnAssign)) and a.value is not None and any(isinstance(t, ast.Attribute) and src(t) == f"self.{n.attr}" for t in (a.targets if isinstance(a, ast.Assign) else [a.target])):
+                                if id(g3) not in _seen and isinstance(a.value, ast.Call):
+                                    if isinstance(a.value.func, ast.Name) and ctx.prog.resolve_name(g3.module, a.value.func.id) is ctx.cls("PortName"):
+                                        out.append(a.value)
+                                    elif isinstance(a.value.func, ast.Attribute) and src(a.value.func.value) == "self":
+                                        m3 = fn.cls.lookup_method(a.value.func.attr)
+                                        if m3 is not None:
+                                            out.extend(portname_calls(m3, _seen))
         return out
 
     def self_reach(fn: Func, _seen=None) -> List[Func]:
@@ -549,6 +562,13 @@ def run(ctx: Ctx, rep: Report, tier: str) -> None:  # noqa: C901
     sub28 = Report("C09")
     render_after_switch(ctx, sub28)
     rep.absorb(sub28, "R09.11")
+    # R09.12 a name table (or PortName object) kept in an attribute is rebuilt by every operation that changes the
+    # protocol, platform or version it was built for (C17 R17.6)
+    from .c17 import derived_attributes_refreshed
+
+    sub176 = Report("C09")
+    derived_attributes_refreshed(ctx, sub176)
+    rep.absorb(sub176, "R09.12")
     # ---------------------------------------------------------------- R09.7 switches are render-only
     rep.rule("R09.7")
     _r09_7(ctx, rep)
